@@ -147,6 +147,19 @@ func c04Family(c *Case) {
 	if guestPresent {
 		accts = append(accts, sessAcct{Login: "guest", Name: "Guest", PwWire: guestPw, Access: guestAccess()})
 	}
+	// an account whose stored Password is not a well-formed bcrypt hash (operator-edited / legacy file):
+	// no password at all may be accepted for it
+	legacyRaw := pickStr(r, "", "secret", "hunter2", "x", "$2a$04$", "$2a$04$abcdefghijklmnopqrstuu",
+		"$9z$04$N9Kc1U7yJ7DLGBndd8HhdOSV6wBephNCmQjQ9UwYqRxpqfBc5q8Fi", "$2a$99$N9Kc1U7yJ7DLGBndd8HhdOSV6wBephNCmQjQ9UwYqRxpqfBc5q8Fi",
+		"2a$04$N9Kc1U7yJ7DLGBndd8HhdOSV6wBephNCmQjQ9UwYqRxpqfBc5q8Fi")
+	legacyPresent := r.Chance(60)
+	if legacyPresent {
+		la := guestAccess()
+		if r.Bool() {
+			la = allAccess()
+		}
+		accts = append(accts, sessAcct{Login: "legacy", Name: "Legacy", PwWire: []byte{}, Access: la, RawHash: &legacyRaw})
+	}
 	find := func(login string) *sessAcct {
 		for i := range accts {
 			if accts[i].Login == login {
@@ -163,6 +176,11 @@ func c04Family(c *Case) {
 		return
 	}
 	defer ts.Close()
+	if err := installRawAccounts(ts, accts); err != nil {
+		c.Note("fixture", err.Error())
+		c.Dist("skipped/fixture")
+		return
+	}
 	mgr := &recMgr{ClientManager: ts.Srv.ClientMgr}
 	ts.Srv.ClientMgr = mgr
 	os.WriteFile(filepath.Join(ts.Root, "doomed.txt"), []byte("precious"), 0644)
@@ -176,6 +194,64 @@ func c04Family(c *Case) {
 	}()
 	waitCount := func(b *WireClient, n int) bool {
 		return waitFor(8*time.Second, func() bool { return countTransactions(b.Conn.Written()) >= n })
+	}
+	// ---- history: an administrator renames "alice" through the real HandleUpdateUser (optionally with a
+	// new / removed password) before anybody else connects; the old login must stop working at once
+	renamed := false
+	oldAlicePw := append([]byte{}, alicePw...)
+	if r.Chance(18) {
+		newLogin := pickStr(r, "alicia", "alice2", "Alice", "bob", "a")
+		pwMode := r.Intn(3)
+		rc, err := ts.LoginOK("10.0.0.9:5000", "root", string(hotline.EncodeString(rootPw)), nil, fld(hotline.FieldUserName, []byte("admin")), fld(hotline.FieldVersion, []byte{0, 0xbe}))
+		if err != nil || !waitCount(rc, 3) {
+			rc.Conn.EOF()
+			fixtureLoginFailed(c, "administrator login")
+			return
+		}
+		ga := guestAccess()
+		subs := []hotline.Field{
+			fld(hotline.FieldData, hotline.EncodeString([]byte("alice"))),
+			fld(hotline.FieldUserLogin, hotline.EncodeString([]byte(newLogin))),
+			fld(hotline.FieldUserName, []byte("Alice")),
+			fld(hotline.FieldUserAccess, ga[:]),
+		}
+		newPw := alicePw
+		switch pwMode {
+		case 0: // a single zero byte = keep the password
+			subs = append(subs, fld(hotline.FieldUserPassword, []byte{0}))
+		case 1:
+			newPw = wirePassword(r, 16)
+			subs = append(subs, fld(hotline.FieldUserPassword, newPw))
+		default: // no password field = password removed
+			newPw = []byte{}
+		}
+		body := be16(len(subs))
+		for _, f := range subs {
+			body = append(body, f.Type[:]...)
+			body = append(body, be16(len(f.Data))...)
+			body = append(body, f.Data...)
+		}
+		rc.Conn.Feed(encTran(tranOf(349, 77, fld(hotline.FieldData, body))))
+		rep, ok := rc.ReplyTo(77, 5*time.Second)
+		rc.Conn.EOF()
+		rc.WaitDone(5 * time.Second)
+		gone := waitFor(5*time.Second, func() bool { return len(ts.Srv.ClientMgr.List()) == 0 })
+		if !ok || u32(rep.ErrorCode) != 0 || !gone || ts.Srv.AccountManager.Get(newLogin) == nil {
+			c.Note("rename", fmt.Sprint(ok, gone))
+			fixtureLoginFailed(c, "account rename by the administrator")
+			return
+		}
+		a := find("alice")
+		a.Login = newLogin
+		a.PwWire = newPw
+		alicePw = newPw
+		renamed = true
+		c.Dist(fmt.Sprintf("history/renamed-pwmode-%d", pwMode))
+		c.Note("renamed_to", newLogin)
+	}
+	aliceLogin := "alice"
+	if renamed {
+		aliceLogin = find2(accts, "Alice").Login
 	}
 	// strictly sequential logins: each newcomer is waited for by the exact number of transactions
 	// its login causes (login reply + user access + agreement) plus a keep-alive round trip — the
@@ -246,13 +322,26 @@ func c04Family(c *Case) {
 	}
 	hsValid := len(hs) == 12 && bytes.Equal(hs[:8], clientHandshake[:8])
 	// credentials
-	who := r.Pick(0, 0, 0, 1, 2, 2, 3) // alice, root, guest(empty login), unknown
+	who := r.Pick(0, 0, 0, 1, 2, 2, 3) // alice (current login), root, guest(empty login), unknown
+	if legacyPresent && r.Chance(18) {
+		who = 4 // the account whose stored value is not a bcrypt hash
+	}
+	if renamed && r.Chance(55) {
+		who = 5 // the login the account had before it was renamed
+	}
 	var loginPlain string
 	var truePw []byte
 	exists := true
+	verifiable := true
 	switch who {
 	case 0:
-		loginPlain, truePw = "alice", alicePw
+		loginPlain, truePw = aliceLogin, alicePw
+	case 4:
+		loginPlain, truePw = "legacy", []byte(legacyRaw) // "correct" = the literal stored value
+		verifiable = false
+	case 5:
+		loginPlain, truePw = "alice", oldAlicePw
+		exists = false
 	case 1:
 		loginPlain, truePw = "root", rootPw
 	case 2:
@@ -260,14 +349,22 @@ func c04Family(c *Case) {
 		exists = guestPresent
 	default:
 		loginPlain, truePw = pickStr(r, "nobody", "Alice", "alice ", "alic", "ROOT", "guest2", "alice\x00"), alicePw
-		exists = false
+		exists = find(loginPlain) != nil // only when a rename happened to produce exactly this login
 	}
 	loginWire := hotline.EncodeString([]byte(loginPlain))
 	var pw []byte
 	credKind := "correct"
-	switch k := r.Intn(100); {
+	kcred := r.Intn(100)
+	if who == 5 && r.Chance(60) {
+		kcred = 0 // the old login with its old password
+	}
+	switch k := kcred; {
 	case k < 22:
 		pw = append([]byte{}, truePw...)
+		if who == 4 && r.Chance(40) {
+			pw = hotline.EncodeString(truePw)
+			credKind = "obfuscated-stored-value"
+		}
 	case k < 36:
 		pw = wirePassword(r, 20)
 		credKind = "random"
@@ -364,12 +461,15 @@ func c04Family(c *Case) {
 		baseSnap = snapshot(ts.Dir)
 	}
 	pwEq := bytes.Equal(pw, truePw) // nil and empty both mean "no bytes"
-	expectIn := hsValid && !banned && exists && pwEq
+	expectIn := hsValid && !banned && exists && pwEq && verifiable
 	data := append(append(append([]byte{}, hs...), loginB...), tail...)
 	c.Note("addr", addr)
 	c.Note("handshake", hsKind)
 	c.Note("credentials", credKind)
 	c.Note("login", loginPlain)
+	if who == 4 {
+		c.Note("stored_password_value", legacyRaw)
+	}
 	c.Note("stream", short(data))
 	c.Note("appended", dkinds)
 	c.Note("banned", banned)
@@ -404,7 +504,18 @@ func c04Family(c *Case) {
 	if r.Chance(50) {
 		cuts = cutsRandom(r, len(data))
 	}
+	// the peer is gone right after the handshake reply: every later Write fails, while its login and
+	// pipelined requests already sit in one segment
+	failWrites := !wantIn && len(hs) == 12 && r.Chance(15)
+	if failWrites {
+		cuts = nil
+		c.Dist("writes-fail-after-handshake-reply")
+		c.Note("writes_fail_after_handshake_reply", true)
+	}
 	conn := newScriptConn(data, cuts)
+	if failWrites {
+		conn.failAfter = 8
+	}
 	gateOK := true
 	if wantIn {
 		// keep the session open until the login's own transactions were written (they are dropped otherwise)
@@ -424,7 +535,7 @@ func c04Family(c *Case) {
 	if !wantIn {
 		barrier(0x70000002)
 	}
-	written := conn.Written()
+	written := conn.Attempted() // everything the server tried to send, failed writes included
 	registered := mgr.addedFrom(addr)
 	afterSnap := snapshot(ts.Dir)
 	var byNew []string
@@ -471,7 +582,7 @@ func c04Family(c *Case) {
 			c.Note("gate_ok", gateOK)
 			c.Violation("login-refused-with-valid-credentials", "valid handshake, existing account and its current password, yet the connection was not logged in")
 		} else {
-			c.Violation("login-without-valid-credentials", fmt.Sprintf("the connection was logged in although the login condition does not hold (handshake %s, account exists=%v, password %s)", hsKind, exists, credKind))
+			c.Violation("login-without-valid-credentials", fmt.Sprintf("the connection was logged in although the login condition does not hold (handshake %s, account exists=%v, stored hash well-formed=%v, password %s)", hsKind, exists, verifiable, credKind))
 		}
 		return
 	}
@@ -503,11 +614,15 @@ func c04Family(c *Case) {
 	}
 	c.Dist("outcome/" + m.Outcome)
 	c.Corr("login-decision", fmt.Sprint(observedIn), fmt.Sprint(m.In), false)
-	c.Corr("outcome", errClassC04(errStr(run.Err)), outcomeErrClassC04(m.Outcome), false)
+	wantClass := outcomeErrClassC04(m.Outcome)
+	if failWrites && m.Outcome == "loginRejected" {
+		wantClass = "loopErr" // the failed write of the error reply is returned
+	}
+	c.Corr("outcome", errClassC04(errStr(run.Err)), wantClass, false)
 	if hsValid && !banned && len(loginB) >= 22 {
 		c.Nontrivial(fmt.Sprintf("%x|%s|%v", fnv64(data), credKind, guestPresent))
 	}
-	c.Sample(map[string]any{"family": "unauth-gate", "handshake": hsKind, "credentials": credKind, "account_exists": exists, "logged_in": observedIn, "appended": len(dkinds), "outcome": m.Outcome})
+	c.Sample(map[string]any{"family": "unauth-gate", "renamed_before": renamed, "writes_fail": failWrites, "handshake": hsKind, "credentials": credKind, "account_exists": exists, "logged_in": observedIn, "appended": len(dkinds), "outcome": m.Outcome})
 }
 
 func snapDiff(a, b []string) []string {
@@ -564,7 +679,7 @@ func outcomeErrClassC04(o string) string {
 
 func init() {
 	props["C04"] = func(x *Ctx) {
-		x.rule = "each case: fresh server (accounts by1, by2, alice [1..72-byte password], root [all privileges], guest present in 80% [sometimes with a password]); two bystanders logged in over the wire; a pre-login stream = handshake (valid / other version / one bit off in the ids / one bit off in the version / short / random) + first transaction (login alice|root|empty=guest|unknown or case-changed login; password correct / random / strict prefix / extended / case-changed / empty / absent / one bit off / another account's; type 107 or other; 8% byte-mutated) + 0..5 destructive transactions (delete file/folder, new account, board post, chat, new folder, delete account, broadcast, disconnect+ban, news category, instant message); 3% from a banned address. non-trivial = valid handshake, not banned, first transaction present (the credential check decides); distinct = distinct (stream, credential kind, guest present)"
+		x.rule = "each case: fresh server (accounts by1, by2, alice [1..72-byte password], root [all privileges], guest present in 80% [sometimes with a password], in 60% an account \"legacy\" whose hand-written file holds a Password that is not a bcrypt hash [empty, plaintext, truncated, unknown version/cost]); in 18% an administrator first renames alice through the real HandleUpdateUser (password kept / changed / removed) and the OLD login is then tried; in 15% of the not-to-be-logged-in cases every Write after the 8-byte handshake reply fails while login and requests arrive in one segment; two bystanders logged in over the wire; a pre-login stream = handshake (valid / other version / one bit off in the ids / one bit off in the version / short / random) + first transaction (login alice|root|empty=guest|unknown or case-changed login; password correct / random / strict prefix / extended / case-changed / empty / absent / one bit off / another account's; type 107 or other; 8% byte-mutated) + 0..5 destructive transactions (delete file/folder, new account, board post, chat, new folder, delete account, broadcast, disconnect+ban, news category, instant message); 3% from a banned address. non-trivial = valid handshake, not banned, first transaction present (the credential check decides); distinct = distinct (stream, credential kind, guest present)"
 		x.assume = []string{
 			"bcrypt: verify(hash(p), q) iff p = q for passwords of at most 72 bytes without NUL bytes (the oracle's verify is equality on the stored password bytes)",
 			"for a stream expected to log in, the bytes after the login are delivered once the login's own transactions were written (the server drops queued replies when the connection ends)",
@@ -572,4 +687,14 @@ func init() {
 		}
 		x.Add(&Family{Name: "unauth-gate", Quick: 2600, Thor: 30000, Run: c04Family})
 	}
+}
+
+// find2 looks an account up by display name (the login may have been changed by a rename).
+func find2(as []sessAcct, name string) *sessAcct {
+	for i := range as {
+		if as[i].Name == name {
+			return &as[i]
+		}
+	}
+	return &sessAcct{}
 }
